@@ -228,6 +228,9 @@ func runForm(c *C06Form) (sig, detail string) {
 		} else if strings.TrimPrefix(t, "array:") != "string" {
 			kinds = append(kinds, "non-string-property-present")
 		}
+		if f[1] == "" {
+			kinds = append(kinds, "empty-text-present")
+		}
 	}
 	for name := range c.Props {
 		if !seen[name] {
@@ -249,6 +252,8 @@ func runForm(c *C06Form) (sig, detail string) {
 		switch {
 		case c.Enc == "urlencoded" && has("declared-property-absent"):
 			cause = "declared-property-absent" // stored as null, then "Value is not nullable"
+		case c.Enc == "urlencoded" && has("empty-text-present"):
+			cause = "empty-text-present" // an empty text decodes to nil (a whole array becomes nil): the C05 finding on empty elements
 		case c.Enc == "multipart" && has("undeclared-field"):
 			cause = "undeclared-field" // "part zz: undefined" although additional properties are allowed
 		case c.Enc == "multipart" && has("non-string-property-present"):
